@@ -12,6 +12,10 @@
  * Oracle per emitted frame j: type f32, frame_id = id of input j*K, size = 8*ceil((96+4*NPX)/8),
  * pixel = (float)S * (1.0f/K) in IEEE single (S = exact integer sum of the window), count =
  * floor(N/K) complete windows + at most one trailing frame.
+ * SCN 4 (C09, sink died): at an arbitrary boundary the sink dies the way sink.c's storage-error path
+ * does (it refuses writes on the output ring and consumes nothing more); the filter must go on
+ * draining its input until the source asks it to stop — a filter that gives up leaves the source
+ * blocked on a full filter queue for good — and must not leave frames in its input queue.
  * SCN 1: ordering / mean / count.   SCN 2 (flush race): the sink abstraction "after being told
  * to stop, drain until the first empty map, then the storage is stopped" must still see every
  * frame the filter commits.
@@ -174,6 +178,22 @@ sink_step(void)
     }
 }
 
+static int sink_dead, die_opps;
+/* SCN 4: the moment of the sink's death is fixed per harness instance: the DIE_AT-th scheduling
+ * boundary (a symbolic choice at every boundary exhausted 22 GB) */
+#ifndef DIE_AT
+#define DIE_AT 0
+#endif
+static int die_now(void) { return !sink_dead && die_opps++ == DIE_AT; }
+static void
+sink_dies(void)
+{
+    /* sink.c, error path: refuse writes on its queue (wakes a blocked writer), stop consuming */
+    if (sink_dead) return;
+    sink_dead = 1;
+    out.is_accepting_writes = 0;
+    storage_stopped = 1;
+}
 static void
 env_step(void)
 {
@@ -199,13 +219,24 @@ void verif_on_lock_acquire(struct lock* l) {}
 void
 verif_on_lock_release(struct lock* l)
 {
-    if (!in_env && !main_done && l == &out.lock && ND(bool_t)) { in_env = 1; sink_step(); in_env = 0; }
+    if (!in_env && !main_done && l == &out.lock && ND(bool_t)) {
+        in_env = 1;
+        sink_step();
+        in_env = 0;
+    }
+#if SCN == 4
+    if (!in_env && !main_done && l == &out.lock && die_now()) sink_dies();
+#endif
 }
 void verif_on_notify(struct condition_variable* cv) {}
 void
 verif_on_wait(struct condition_variable* cv, struct lock* l)
 {
     /* the filter waits for space in the output ring: the sink consumes (if it still runs) */
+#if SCN == 4
+    if (sink_dead) return; /* the refusal has woken the writer: the wait loop re-tests the flag */
+    if (die_now()) { sink_dies(); return; }
+#endif
     VASSUME(!storage_stopped);
     lock_release(l);
     in_env = 1; sink_step(); in_env = 0;
@@ -234,6 +265,9 @@ clock_sleep_ms(struct clock* c, float ms)
 #else
     for (int i = 0; i <= NMAX; ++i)
         if (ND(bool_t)) writer_step(); /* a group of input frames arrives (and possibly the stop request) */
+#endif
+#if SCN == 4
+    if (die_now()) sink_dies(); else
 #endif
     if (ND(bool_t)) sink_step();
     in_env = 0;
@@ -302,6 +336,14 @@ main(void)
     flt.is_running = 1;
     int rc = video_filter_thread(&flt);
     main_done = 1;
+#if SCN == 4
+    VASSERT(writer_done, "C09: the filter thread exited before the source asked it to stop (after the sink died): the source can block for good on the filter's queue");
+    VASSERT(flt.in.holds.pos[flt.reader.id - 1] == flt.in.head, "C09: frames left in the filter's input queue after it finished (they would be written first by the next acquisition)");
+    VASSERT(flt.is_running == 0 && flt.is_stopping == 0, "filter flags not reset");
+    COVER(sink_dead || die_opps <= DIE_AT);
+    WITNESS_END();
+    return 0;
+#else
     VASSERT(writer_done, "harness: environment writer did not finish (cut by the poll bound)");
     VASSERT(rc == 0, "filter thread reported an error");
     /* the filter thread has finished: now the sink is told to stop and does its final flush */
@@ -326,5 +368,6 @@ main(void)
 #endif
     WITNESS_END();
     return 0;
+#endif /* SCN != 4 */
 }
 #endif
